@@ -387,7 +387,6 @@ pub fn replay(doc: &Value) -> i32 {
         Some((class, msg)) => {
             println!("reproduced: class={} :: {}", class, msg);
             if doc["class"].as_str() == Some(class.as_str()) {
-                println!("VIOLATION property=C15 replay=(replayed)");
                 1
             } else {
                 println!("a violation reproduced, but of a different class than recorded ({:?})", doc["class"]);
